@@ -124,11 +124,11 @@ fn touches_directive(pieces: &[Piece], gap_idx: usize) -> bool {
     (gap_idx > 0 && is_d(&pieces[gap_idx - 1])) || (gap_idx < pieces.len() && is_d(&pieces[gap_idx]))
 }
 fn in_verbatim(pieces: &[Piece], gap_idx: usize) -> bool {
-    // a gap is verbatim if both neighbours are verbatim (inside a region), or the preceding
-    // piece is verbatim and there is no following one (region open until end of file)
+    // a gap is kept if it touches verbatim material: inside a `pasfmt off` region, or before /
+    // after an asm instruction (line breaks inside asm blocks are significant)
     let prev = gap_idx > 0 && pieces[gap_idx - 1].verbatim;
     let next = gap_idx < pieces.len() && pieces[gap_idx].verbatim;
-    (prev && next) || (prev && gap_idx == pieces.len())
+    prev || next
 }
 
 const COMMENT_WORDS: &[&str] = &["note", "TODO: fix", "x", "begin", "end;", "if a then", "'quote", "{brace", "(*", "ünï", "a  b", "pasfmt", "offline", "$IFDEF"];
